@@ -22,13 +22,17 @@ HARNESSES = [dict(name="pppoe", pkg="./internal/pppoe/", test="TestVerifC02", ti
 def route(case):
     return "ipoe" if case.startswith("B ") else "pppoe"
 def _v(fixed):
-    return "v" + "".join("0" if i in fixed else "1" for i in range(1, 7))
+    return "v" + "".join("0" if i in fixed else "1" for i in range(1, 8))
 
 
-# repaired = no defect, defective = the code today (all six flags); then "one defect fixed" for each flag and the
-# combinations of the defects for which fixes/C02_*.patch exist (flags 1 and 3), so the check keeps passing
-# while the lead applies those patches in any order.
-VARIANTS = ["repaired", "defective"] + [_v({i}) for i in range(1, 7)] + [_v({1, 3})]
+# Defect flags 1..7 (see Model.v).  Flags 1 (constant fall-back) and 3 (expiry take-over) are fixed in /repo
+# (24c9504, 58e16d0).  Variants tried, in order: repaired (no defect); the code today; the code today with one
+# more defect fixed (each remaining flag), with the two proposed patches (6: pending ACK recorded, 7: nil-pool
+# guard) together; and the historical combinations with 1 and/or 3 still present, so that older trees and
+# partially patched trees are still explained.
+FIXED = {1, 3}
+VARIANTS = (["repaired", _v(FIXED)] + [_v(FIXED | {i}) for i in (2, 4, 5, 6, 7)] + [_v(FIXED | {6, 7})] +
+            ["defective", _v({1}), _v({3})])
 MODEL_NEEDS_IMPL = True
 RULE = ("random configurations: 1-3 IPv4 pools (0-3 addresses, exclusions, two profiles, VRFs 0/1, globally disjoint "
         "ranges, sometimes one containing 100.64.0.1), 0-2 IA_NA pools, 0-2 PD pools (/63 or /62 -> /64); 2-5 "
